@@ -713,8 +713,77 @@ def r7_reader_probes_each_subdir_with_its_own_times(repo=None):
     return r
 
 
+def r8_reader_prefix_is_text(repo=None):
+    """'the reader looks for it in exactly that file': the reader formats the stored file-name prefix into "<prefix>@<T>.h5".  h5py
+    hands a fixed-length ascii attribute back as bytes, and "%s" of bytes is "b'md'": the prefix has to be decoded before the
+    constructor returns - on *every* normal exit, the early one for a channel without samples included (that reader stays in use:
+    a monitor, the reader cached by DigitalRFReader.get_digital_metadata)."""
+    r = Rule("C13.R8", "the reader's file-name prefix is decoded to text on every normal exit of its constructor")
+    m = pyfront.mod("digital_metadata", repo)
+    R = "DigitalMetadataReader"
+    q = R + ".__init__"
+    f = m.fn(q)              # as written: a decoding helper stays a call (inlined, its pass-through branch would look like a raw store)
+    g = m.cfg(q)
+
+    def decodes(e, depth=0):
+        """does the expression convert bytes to text (.decode, str(..., 'ascii'), a helper that does)?"""
+        for x in ast.walk(e):
+            if isinstance(x, ast.Call):
+                if isinstance(x.func, ast.Attribute) and x.func.attr == "decode":
+                    return True
+                cn = pyfront.call_name(x) or ""
+                if cn in ("str", "six.text_type") and len(x.args) >= 2:
+                    return True
+                h = m.functions.get(cn) if "." not in cn else None
+                if h is not None and depth < 2 and any(isinstance(y, ast.Call) and isinstance(y.func, ast.Attribute) and y.func.attr == "decode" for y in ast.walk(h)):
+                    return True
+        return False
+    stores = [n for n in g.nodes if isinstance(n.ast, ast.Assign) and any(pyfront.dotted(t) == "self._file_name" for t in n.ast.targets)]
+    if not stores:
+        raise AnalysisError("%s: store of self._file_name not found" % q)
+    text, raw = [], []
+    for n in stores:
+        v = n.ast.value
+        if decodes(v):
+            text.append(n)
+            continue
+        if isinstance(v, ast.Name):
+            defs = [a for a in ast.walk(f) if isinstance(a, ast.Assign) and any(isinstance(t, ast.Name) and t.id == v.id for t in a.targets)]
+            if any(decodes(a.value) for a in defs):
+                text.append(n)
+                continue
+        reads_attr = any(isinstance(x, ast.Subscript) and isinstance(x.value, ast.Attribute) and x.value.attr == "attrs" for x in ast.walk(v)) or (
+            isinstance(v, ast.Name) and any(isinstance(x, ast.Subscript) and isinstance(x.value, ast.Attribute) and x.value.attr == "attrs"
+                                             for a in ast.walk(f) if isinstance(a, ast.Assign) and any(isinstance(t, ast.Name) and t.id == v.id for t in a.targets)
+                                             for x in ast.walk(a.value)))
+        if reads_attr:
+            raw.append(n)
+        else:
+            raise AnalysisError("%s: where `%s` comes from was not recognised" % (q, norm(ast.unparse(n.ast))[:60]))
+    exits = [n for n in g.nodes if n.kind == "return"] + [g.exit]
+    bad = None
+    for n in raw:
+        # handled exceptions are part of the constructor's normal control flow (`try: f["fields"] except KeyError: ... return`);
+        # an uncaught one leaves through the raise-exit, which is not in `exits`
+        side = g.reach([b for b, l in g.succ[n.id] if l != "exc"], avoid=[t.id for t in text])
+        for x in exits:
+            if x.id in side:
+                bad = (n, x)
+    if bad:
+        n, x = bad
+        r.violation(m.rel, q, norm(ast.unparse(n.ast))[:60], "the prefix is stored as read from the attribute (bytes under h5py >= 2.9) and a normal "
+                    "exit of the constructor (%s) is reached without decoding it: that reader probes `b'<prefix>'@T.h5` while the writer "
+                    "stores `<prefix>@T.h5` - right time, right sub-directory, wrong name" % (
+                        "line %s" % x.line if x.kind == "return" else "the end"), line=n.line)
+    else:
+        for n in text:
+            r.ok("%s:%s %s" % (m.rel, n.line, q), "self._file_name is stored decoded; no exit is reached with the raw attribute value")
+    r.guard(1)
+    return r
+
+
 def rules(repo=None):
-    return [lambda: r7_reader_probes_each_subdir_with_its_own_times(repo), lambda: r6_joining_writer_refuses_other_parameters(repo), lambda: r1_exact_placement(repo), lambda: r2_one_formula(repo), lambda: r3_format_agreement(repo),
+    return [lambda: r8_reader_prefix_is_text(repo), lambda: r7_reader_probes_each_subdir_with_its_own_times(repo), lambda: r6_joining_writer_refuses_other_parameters(repo), lambda: r1_exact_placement(repo), lambda: r2_one_formula(repo), lambda: r3_format_agreement(repo),
             lambda: r4_subdir_per_file(repo), lambda: r5_groups_are_groupby_groups(repo)]
 
 
@@ -731,7 +800,10 @@ EXPLANATION = (
     ' a definition that pairs the whole ungrouped input with the key of one element is reported (samples stored without '
     'their own key being evaluated), any other definition is not decided (exit 2). R6: the writer method that reads the '
     'stored properties of an existing channel raises on `!=` for every attribute the per-file generator reads (rate, '
-    'cadences, prefix), and the constructor reaches it whenever a properties file is found.')
+    "cadences, prefix), and the constructor reaches it whenever a properties file is found. R7: in the reader's candidate"
+    ' loop a value in the backward slice of the probed names that is carried across iterations must be updated on every '
+    "path through the loop body. R8: no normal exit of the reader's constructor is reached from the raw store of the "
+    'file-name prefix without the store that decodes it.')
 TECHNIQUE = ("Python ast; float-taint dataflow; symbolic straight-line evaluation + canonical form of nested floor divisions "
              "(writer/reader sibling agreement); CFG must-pass over the backward slice; regular-language algebra")
 ASSUMPTIONS = ["Python int arithmetic is exact; floor(floor(x/a)/b) = floor(x/(a*b)) for positive integers",
